@@ -113,6 +113,16 @@ let () = each_line (fun line ->
       let b = match bo with Some b -> b | None -> [] in
       let got = if zi r = 0 then "EMPTY" else hex_of_bytes (List.filteri (fun i _ -> i < zi r) b) in
       Printf.sprintf "rp=%s bc=%s" got got
+    | "tl" :: mm :: nm :: ha :: ht :: ar :: _ ->
+      let maxmsg = int_of_string mm and nm = int_of_string nm in
+      let a = bytes_of_hex ha and t = bytes_of_hex ht and args = parse_args ar in
+      let (r, bo) = get (amessage (Some (fill maxmsg)) a t args) in
+      let b = match bo with Some b -> b | None -> [] in
+      (* accepted iff it was encoded (r > 0) and fits the free space of the empty ring *)
+      let got = if zi r = 0 || zi r > maxmsg * nm - 1 then "EMPTY" else hex_of_bytes (List.filteri (fun i _ -> i < zi r) b) in
+      let ts = String.concat "" (List.map (fun c -> String.make 1 (Char.chr (zi c))) t) in
+      let wshape = List.mem ts ["s"; "ss"; "b"; "is"; "sb"; ""] in
+      Printf.sprintf "wa=%s w=%s" got (if wshape then got else "na")
     | "sub" :: cap :: va :: vb :: vc :: _ ->
       let cap = int_of_string cap in
       if cap = 0 then "r=0 b=-" else begin
